@@ -92,7 +92,7 @@ fn nontrivial_rule(prop: &str) -> &'static str
         "C08" => "profiles C08 and C08F (App frames); non-trivial = at least one removal/despawn event raised; distinct = distinct observed trace",
         "C09" => "profiles C09 and C09P (polled reactions at tree boundaries); non-trivial = tree depth >= 2; distinct = distinct observed trace",
         "C10" => "profile C10 (histories) plus shuttle thread schedules; non-trivial = a signal's last clone dropped; distinct = distinct observed trace / schedule outcome",
-        "C11" => "profile C11; non-trivial = 2+ trees on one world with an aborted or postponed delivery; distinct = distinct observed trace",
+        "C11" => "profiles C11 and C09P (polled reactions at tree boundaries); non-trivial = 2+ trees on one world with an aborted or postponed delivery; distinct = distinct observed trace",
         "C12" => "profile C12; non-trivial = 2+ sender/target FIFO pairs checked with a postponed delivery; distinct = distinct observed trace",
         "C13" => "profile C13; non-trivial = 3+ system runs; distinct = distinct observed trace",
         "C14" => "profile C14; non-trivial = a set_if_neq call or an insert on an entity despawned before application; distinct = distinct observed trace",
@@ -110,7 +110,7 @@ fn profiles_for(prop: &str) -> Vec<&'static str>
     match prop
     {
         "C01" => vec!["C01"], "C02" => vec!["C02"], "C03" => vec!["C03"], "C04" => vec!["C04"], "C05" => vec!["C05"], "C06" => vec!["C06"],
-        "C07" => vec!["C07"], "C08" => vec!["C08", "C08F"], "C09" => vec!["C09", "C09P"], "C10" => vec!["C10"], "C11" => vec!["C11"], "C12" => vec!["C12"],
+        "C07" => vec!["C07"], "C08" => vec!["C08", "C08F"], "C09" => vec!["C09", "C09P"], "C10" => vec!["C10"], "C11" => vec!["C11", "C09P"], "C12" => vec!["C12"],
         "C13" => vec!["C13"], "C14" => vec!["C14"], "C15" => vec!["C15"], "C16" => vec!["C16"], "C17" => vec!["C17"], _ => vec!["C18"],
     }
 }
@@ -323,13 +323,16 @@ fn cmd_check(a: Args) -> i32
                 "F5_registration_on_dead_entity": s.reg_dead_entity, "F5_insert_on_entity_dead_at_apply": s.inserts_dead_at_apply, "F6_A1_event_for_dead_entity": s.a1_ambiguous,
                 "F11_recursive_despawn": s.entity_recursive_despawn, "F14_slot_respawned": s.slot_respawn, "payload_released_by_abort": s.payload_abort_release,
                 "refcount_reached_zero": s.doomed_insts, "signal_last_clone_dropped": s.sig_zero, "removal_or_despawn_events": s.polled_events, "removal_or_despawn_events_inside_tree": s.polled_in_tree,
-                "F13_guaranteed_gc_points": s.guaranteed_gc, "F13_guaranteed_poll_points": s.guaranteed_poll
+                "F13_guaranteed_gc_points": s.guaranteed_gc, "F13_guaranteed_poll_points": s.guaranteed_poll,
+                "repeated_setup_auto_despawn": s.app_setup_again, "reactive_resource_removed": s.res_removed, "resource_trigger_while_resource_absent": s.res_trigger_while_absent,
+                "entity_world_reactor_member_re_added": s.ewr_readd, "bulk_signals_released_between_two_collections": s.bulk_collected
             },
             "rare_condition_probes": {
                 "postponed_deliveries": s.postponed, "max_postponed_for_one_target": s.max_postponed_one_target, "nested_replay": s.nested_replay, "payload_with_zero_listeners": s.payload_zero_listeners,
                 "same_system_two_kinds_one_tree": s.multi_kind_same_tree, "removal_reinsert_removal_between_polls": s.removal_reinsert_removal, "once_fired": s.once_fired,
                 "once_triggered_again_after_firing": s.once_retrigger_after_fire, "seven_or_more_reactors_on_one_key": s.reactors_per_key_ge7, "exclusive_reactor_bodies": s.excl_bodies,
-                "max_tree_depth": s.max_depth, "ewr_bodies": s.ewr_bodies, "ewr_no_data_accepted_A5": s.ewr_nodata_ok, "set_if_neq_equal": s.setifneq_equal, "set_if_neq_different": s.setifneq_diff, "syscall_family_calls": s.sys_calls
+                "max_tree_depth": s.max_depth, "ewr_bodies": s.ewr_bodies, "ewr_no_data_accepted_A5": s.ewr_nodata_ok, "set_if_neq_equal": s.setifneq_equal, "set_if_neq_different": s.setifneq_diff, "syscall_family_calls": s.sys_calls,
+                "accessor_surface_ops": s.acc_ops, "single_accessors_with_exactly_one_holder": s.single_acc, "largest_bulk_release": s.max_bulk, "syscall_same_key_recursion": s.sys_recursive
             },
             "spec_choice_points": { "N1_sibling_order_not_first": s.sibling_reorder, "optional_delivery_taken": s.optional_taken, "optional_delivery_not_taken": s.optional_skipped, "N2_polled_reactions": s.polled_reactions },
             "not_judged_runs": total.inconclusive,
